@@ -113,6 +113,13 @@ HELPER_B = "from nada_dsl import *\n\ndef scale(x):\n    return x * Integer(2)\n
 MAIN_AB = ("from nada_dsl import *\nfrom helpers import scale\n\n\ndef nada_main():\n    p = Party(name='P0')\n"
            "    v = SecretInteger(Input(name='{n}', party=p))\n    return [Output(scale(v), 'o', p)]\n")
 MAIN_PKG = MAIN_AB.replace("from helpers import scale", "from helperpkg.ops import scale")
+FAILING_WITH_HELPER = ("from nada_dsl import *\nfrom helpers import scale\n\n\ndef nada_main():\n    p = Party(name='P0')\n"
+                       "    v = SecretInteger(Input(name='va', party=p))\n    w = scale(v)\n    raise ValueError('this program is wrong')\n")
+REWRITTEN_V1 = ("from nada_dsl import *\n\n\ndef nada_main():\n    p = Party(name='P0')\n    a = SecretInteger(Input(name='a', party=p))\n"
+                "    b = SecretInteger(Input(name='b', party=p))\n    c = a * b\n    return [Output(c + undefined_name, 'o', p)]\n")
+REWRITTEN_V2 = ("from nada_dsl import *\n\n# fixed: the missing operand is an input now\n\ndef nada_main():\n    p = Party(name='P0')\n"
+                "    a = SecretInteger(Input(name='a', party=p))\n    b = SecretInteger(Input(name='b', party=p))\n"
+                "    k = SecretInteger(Input(name='k', party=p))\n    c = a * b\n    return [Output(c + k, 'o', p)]\n")
 SCALING_PROGRAM = ("from nada_dsl import *\n\ndef scale(x):\n    return x * Integer(3)\n\n\ndef nada_main():\n    p = Party(name='P0')\n"
                    "    v = SecretInteger(Input(name='w', party=p))\n    return [Output(scale(v), 'o', p)]\n")
 MAIN_SCALING = ("from nada_dsl import *\nfrom scaling import scale\n\n\ndef nada_main():\n    p = Party(name='P0')\n"
@@ -157,7 +164,18 @@ def plans_part(ctx, cands, fresh, good, rng):
             json.dump({"plan": plan, "report": rep}, open(sp, "w"))
             jobs.append(("interleaved:" + shape, sp, pd, {"A": a, "B": b, "C": c}[rep], [cands[i].get("text") or surface.to_python(cands[i]) for i in (a, b, c)]))
         # (b) compile_script histories
+        # a file compiled (and failing), edited, compiled again under the same path in the same process
+        pd = os.path.join(d, "rewritten-after-failure")
+        os.makedirs(os.path.join(pd, "p"), exist_ok=True)
+        rp = os.path.join(pd, "p", "prog.py")
+        open(rp, "w").write(REWRITTEN_V1)
+        json.dump({"plan": [["script", rp, "v1"], ["write", rp, REWRITTEN_V2], ["script", rp, "v2"]], "report": "v2"}, open(os.path.join(pd, "spec.json"), "w"))
+        json.dump({"plan": [["write", rp, REWRITTEN_V2], ["script", rp, "v2"]], "report": "v2"}, open(os.path.join(pd, "spec_alone.json"), "w"))
+        jobs.append(("scripts:file-rewritten-after-a-failed-compilation", os.path.join(pd, "spec.json"), pd, None, {"p/prog.py (first)": REWRITTEN_V1, "p/prog.py (then)": REWRITTEN_V2}))
+        jobs.append(("scripts-alone:file-rewritten-after-a-failed-compilation", os.path.join(pd, "spec_alone.json"), pd, None, {}))
         for tag, files, order, rep in (
+            ("helper-of-a-program-that-raised", {"a/main.py": FAILING_WITH_HELPER, "a/helpers.py": HELPER_A, "b/main.py": MAIN_AB.format(n="vb"), "b/helpers.py": HELPER_B},
+             ["a/main.py", "b/main.py"], "b/main.py"),
             ("same-helper-name", {"a/main.py": MAIN_AB.format(n="va"), "a/helpers.py": HELPER_A, "b/main.py": MAIN_AB.format(n="vb"), "b/helpers.py": HELPER_B},
              ["a/main.py", "b/main.py"], "b/main.py"),
             ("helper-named-like-earlier-program", {"a/scaling.py": SCALING_PROGRAM, "b/main.py": MAIN_SCALING, "b/scaling.py": SCALING_B},
@@ -208,7 +226,8 @@ def plans_part(ctx, cands, fresh, good, rng):
                                  how_to_replay="tools/run_history.py with a plan: trace / compile steps in the given order"))
     # compile_script histories: the reported program after the history vs compiled alone (another process), up to renaming (Coq)
     sc = {j[0]: (j, r) for j, r in zip(jobs, res) if j[0].startswith("scripts")}
-    tags = ("same-helper-name", "helper-named-like-earlier-program", "same-helper-package", "same-helper-namespace-package")
+    tags = ("same-helper-name", "helper-named-like-earlier-program", "same-helper-package", "same-helper-namespace-package",
+            "helper-of-a-program-that-raised", "file-rewritten-after-a-failed-compilation")
     items = [f"({mirprint.g_ioutcome(sc['scripts:' + t][1])}, {mirprint.g_ioutcome(sc['scripts-alone:' + t][1])})" for t in tags]
     text = (progrun.HEAD + "From NadaV.Spec Require Import MirSpec Equiv.\n"
             "Definition cases : list (ioutcome * ioutcome) :=\n  [" + ";\n   ".join(items) + "].\n"
@@ -219,6 +238,19 @@ def plans_part(ctx, cands, fresh, good, rng):
         raise RuntimeError("cases c08_scripts failed: " + (o + e)[-1200:])
     sbad = vlib.parse_zlist(vlib.parse_evals(o)[0])
     nsb = len(sbad)
+    # ... and the embedded source texts / resolved references of the same histories
+    def resolved(m):
+        return sorted((r["file"], r["lineno"], r["offset"], r["length"]) for r in m["source_refs"])
+    for tag in tags:
+        (j, r), (_, r0) = sc["scripts:" + tag], sc["scripts-alone:" + tag]
+        if "ok" in r and "ok" in r0 and (r["ok"]["source_files"] != r0["ok"]["source_files"] or resolved(r["ok"]) != resolved(r0["ok"])):
+            nsb += 1
+            vlib.report_failure(ctx, "C08/scripts-sources:" + tag,
+                                "the source texts / references of a program compiled with compile_script after another one differ from the same program compiled alone",
+                                dict(case=dict(kind="compile_script-history", files=j[4]),
+                                     observed=dict(source_files={f: t[:160] for f, t in r["ok"]["source_files"].items()}, source_refs=resolved(r["ok"])[:8]),
+                                     expected=dict(source_files={f: t[:160] for f, t in r0["ok"]["source_files"].items()}, source_refs=resolved(r0["ok"])[:8]),
+                                     how_to_replay="in one process: compile_script(<first>) (rewrite the file if the history says so) then compile_script(<second>); compare with the second alone"))
     for i in sbad:
         tag = tags[i]
         (j, r), (_, r0) = sc["scripts:" + tag], sc["scripts-alone:" + tag]
